@@ -65,7 +65,7 @@ def run(tier, rep, replay=None):
 
 
 MANIFEST = {
- "text": "Shamir.tla (executable sharing over Z_Q with Feldman commitments in a toy group) is model-checked exhaustively (every polynomial, every ordered pick sequence, every (id,value) probe: RecoverCorrect, RefusedIffFew, FeldmanExact, perfect privacy); Shoup.tla (executable threshold RSA over N=77) shows every qualified ordered subset signs correctly and lambda is integral. TLC enumerates ordered share/player subsets; the driver replays them on the four real groups (secret 0/1/L-1/random, ids 1..n and arbitrary) and on tss/rsa (both paddings, cache, blinding, sorted/shuffled, supersets, l up to 30 sampled) judged with crypto/rsa; math/polynomial.Evaluate, computeLambda and computePolynomial outputs are recomputed by TLC from the executable definitions.",
+ "text": "Shamir.tla (executable sharing over Z_Q with Feldman commitments in a toy group) is model-checked exhaustively (every polynomial, every ordered pick sequence, every (id,value) probe: RecoverCorrect, RefusedIffFew, FeldmanExact, perfect privacy); Shoup.tla (executable threshold RSA over N=77) shows every qualified ordered subset signs correctly and lambda is integral. TLC enumerates ordered share/player subsets; the driver replays them on the four real groups (secret 0/1/L-1/random, ids 1..n and arbitrary) and on tss/rsa (both paddings, cache, blinding, sorted/shuffled, supersets, l up to 30 sampled) judged with crypto/rsa; math/polynomial.Evaluate, computeLambda and computePolynomial outputs are recomputed by TLC from the executable definitions. Thresholds of 2^63 and above (ss-huge lines) and RSA moduli of 8j, 8j+1 and 8j+7 bits.",
  "note": "(t,n) up to 4 (quick) / 5 (thorough), RSA l up to 6 / 8 exhaustive subsets plus sampled l<=30; one RSA key per run; Feldman altered-id with t=0 is a valid share and is not asserted.",
  "technique": "TLC exhaustive check of executable toy-field specs + TLC-enumerated subset scenarios replayed on real code + TLC recomputation of logged numeric outputs",
 }
